@@ -97,7 +97,7 @@ Theorem c19_malformed_no_change_payload now k b (p : gmap string ST) s c :
   p !! k = Some s -> mergeS ops now b s = Err c -> merge_part ops now k b p = Ok p.
 Proof. exact (merge_part_error ops now k b p s c). Qed.
 
-(* ---- malformed_never_blocks (false before fix d776701, where the loop returned at the first failing part):
+(* ---- malformed_never_blocks (false before fix 3f33cc7, where the loop returned at the first failing part):
    a part that is unknown or fails to merge is equivalent to its absence — all other parts, before and AFTER it,
    are applied. ---- *)
 Theorem c19_malformed_never_blocks now pre k x post (p p1 : gmap string ST) :
